@@ -73,7 +73,7 @@ def os_case(args) -> dict:
     fmt, which, kind = args
     root = core.fresh_dir("c07")
     out = {"args": list(args), "bad": [], "cases": 0, "required": 0,
-           "harness": None}
+           "skipped": 0, "harness": None}
     try:
         from sedpack.io import Dataset
         _, ref = build(root, fmt)
@@ -95,11 +95,23 @@ def os_case(args) -> dict:
         # the examples that were written (an empty TFRecord file is valid)
         hard = kind == "deleted" or (kind == "emptied" and
                                      real_fmt in ("fb", "npz"))
+        hung_ifaces = set()
         for iface in dsfamily.interfaces(real_fmt, with_rust=True):
             required = rs_rejects if iface == "rust" else (py_rejects or
                                                            hard)
             for sh in (0, 3):
                 for par in ((1, 2, 6) if iface != "sync" else (None,)):
+                    if ((iface, sh) in hung_ifaces or len(hung_ifaces) >= 2
+                            or (hung_ifaces and iface == "tf")):
+                        # a reader already hung on this damaged shard (it is
+                        # reported): the other parallelism values would each
+                        # cost another 60 s to say the same, two hung
+                        # readers are enough for one dataset, and tf.data on
+                        # top of a hanging reader cannot be interrupted at
+                        # all (the main thread waits in C++) - the whole
+                        # worker would be lost for the per-task limit
+                        out["skipped"] += 1
+                        continue
                     kw = {"shuffle": sh}
                     if par:
                         kw["file_parallelism"] = par
@@ -125,6 +137,7 @@ def os_case(args) -> dict:
                             raise
                         outcome = ("raises", type(e).__name__)
                     if outcome[0] == "hang":
+                        hung_ifaces.add((iface, sh))
                         out["bad"].append(
                             ({"symptom": "hang", "iface": iface},
                              f"{desc}: no result within 60 s", desc))
@@ -282,19 +295,39 @@ def run(ctx):
               for k in DAMAGES]
     if ctx.tier == "thorough":
         otasks += [(f, w, "half") for f in fmts for w in ("first", "last")]
-    tot = req = 0
-    for t, r in run_with_watchdog(os_case, otasks, 300, ctx):
-        if r["harness"]:
-            ctx.harness_error(f"{t}: {r['harness']}")
-            continue
-        tot += r["cases"]
-        req += r["required"]
-        for sig, msg, case in r["bad"]:
-            ctx.violation(dict(sig, engine="dataset", fmt=t[0]), msg,
-                          {"kind": "os", "args": r["args"], "desc": case})
+    # one wave per damaged position (every format x damage kind in each); a
+    # wave in which passes hung ends the part: every hang costs its 60 s
+    # watchdog, the finding is already made, and the check has to answer in
+    # minutes on a tree that hangs too (the cap is reported, never silent)
+    otasks.sort(key=lambda t: ("first", "middle", "last").index(t[1]))
+    tot = req = skipped = done = nhang = 0
+    waves = [[t for t in otasks if t[1] == w]
+             for w in ("first", "middle", "last")]
+    for wave in waves:
+        for t, r in run_with_watchdog(os_case, wave, 300, ctx,
+                                      stop_after_hang=True):
+            done += 1
+            nhang += bool(r.get("hung"))
+            if r["harness"]:
+                ctx.harness_error(f"{t}: {r['harness']}")
+                continue
+            tot += r["cases"]
+            req += r["required"]
+            skipped += r.get("skipped", 0)
+            for sig, msg, case in r["bad"]:
+                nhang += (sig.get("symptom") == "hang" and
+                          not r.get("hung"))
+                ctx.violation(dict(sig, engine="dataset", fmt=t[0]), msg,
+                              {"kind": "os", "args": r["args"],
+                               "desc": case})
+        if nhang:
+            break
+    capped = done < len(otasks) or skipped
     ctx.part("damaged shard x interface x shuffle x file_parallelism on the "
              "OS schedule (60 s watchdog each)", datasets=len(otasks),
-             passes=tot, passes_required_to_raise=req)
+             datasets_run=done, passes=tot, passes_required_to_raise=req,
+             passes_skipped_after_a_hang_of_the_same_reader=skipped,
+             stopped_after_hangs=nhang if capped else 0)
     ctx.add(evaluations=tot, distinct_nontrivial=tot)
     ctx.sample({"format": "fb", "damaged": "middle shard deleted",
                 "interface": "concurrent shuffle=3 file_parallelism=2",
@@ -310,7 +343,13 @@ def run(ctx):
         "cooperative scheduler (deadlock exact), Rust parallel map under "
         "every completion order with a panicking item, everything else on "
         "the OS schedule with a watchdog")
-    ctx.cov["exhaustive"] = True
+    ctx.cov["exhaustive"] = not capped
+    if capped:
+        ctx.cov["cap"] = (
+            f"OS-schedule part stopped after {nhang} hung passes (all "
+            f"reported as violations): {done} of {len(otasks)} damaged "
+            f"datasets run, {skipped} passes of an already hung reader "
+            "skipped")
     ctx.assumptions[:] = [
         "requirement: a deleted shard, and an emptied fb / npz shard, must "
         "raise in every Python reader regardless of what the library's "
